@@ -135,4 +135,45 @@ def released_probes():
 for name, before, after, twin, orphan in released_probes():
     ok = before == after == twin and orphan
     out.append(['<released>', name, '', '', 'ok' if ok else 'DIFFERS', True, '' if ok else 'parent is None: %s; alone %r / after the former parent was nested %r / twin %r' % (orphan, before[:80], after[:80], twin[:80])])
+# elements that come out of the parser are instances like any others: equal leaves in different parents are different objects, and a second parse
+# of the same text is not affected by what was done to the first
+def parsed_probes():
+    import tempfile, os
+    from musicxml.parser.parser import parse_musicxml
+    note = '<note><pitch><step>C</step><octave>4</octave></pitch><duration>4</duration><voice>1</voice><type>whole</type></note>'
+    rest = '<note><rest/><duration>4</duration><voice>1</voice><type>whole</type></note>'
+    text = ('<?xml version="1.0" encoding="UTF-8"?><score-partwise version="4.0"><part-list><score-part id="P1"><part-name>A</part-name></score-part></part-list>'
+            '<part id="P1"><measure number="1">' + note + rest + note + rest + '</measure></part></score-partwise>')
+    fd, path = tempfile.mkstemp(suffix='.xml')
+    os.write(fd, text.encode('utf-8')); os.close(fd)
+    res = []
+    try:
+        s1 = parse_musicxml(path)
+        first = outcome(s1.to_string)
+        notes = [n for n in s1.get_children()[-1].get_children()[0].get_children()]
+        before = [outcome(n.to_string) for n in notes]
+        ids = {}
+        shared = []
+        for n in notes:
+            for leaf in n.traverse():
+                if leaf is not n and id(leaf) in ids and ids[id(leaf)] is not n:
+                    shared.append(leaf.name)
+                ids[id(leaf)] = n
+        res.append(('no element object is a descendant of two parsed notes', not shared, 'shared: %s' % sorted(set(shared))))
+        n2 = notes[1]
+        n2.xml_duration = 2
+        n2.xml_type = None
+        n2.xml_rest.add_child(XE.XMLDisplayStep('D')); n2.xml_rest.add_child(XE.XMLDisplayOctave(5))
+        after = [outcome(n.to_string) for n in notes]
+        res.append(('changing the second parsed note leaves the first, third and fourth as they were', [before[i] == after[i] for i in (0, 2, 3)] == [True] * 3,
+                    'notes that changed: %s' % [i + 1 for i in (0, 2, 3) if before[i] != after[i]]))
+        s2 = parse_musicxml(path)
+        res.append(('a second parse of the same file serialises like the first did', outcome(s2.to_string) == first, ''))
+    except Exception as ex:
+        res.append(('parsed probes run', False, type(ex).__name__ + ': ' + str(ex)[:120]))
+    finally:
+        os.remove(path)
+    return res
+for name, ok, detail in parsed_probes():
+    out.append(['<released>', name, '', '', 'ok' if ok else 'DIFFERS', True, '' if ok else detail])
 json.dump(out, sys.stdout)
